@@ -261,6 +261,27 @@ def asyncstack_balance(run, F):
             elif not G.must_reach_before_exit(node, posts):
                 run.violation(f['qname'], 'activate-unbalanced', '%s:%s' % (f['file'], e['line']),
                               'an async stack frame is activated and a path reaches the end of the function without deactivating it or resuming the coroutine that owns it')
+    # a frame's root is cleared by deactivation: it must be read before, not after
+    for f in F.funcs:
+        deacts = [(b, i, e) for b, i, e in events(f) if e['k'] == 'call' and e['callee'].get('name') == 'deactivateAsyncStackFrame' and e.get('args')]
+        if not deacts or f['name'] == 'deactivateAsyncStackFrame': continue
+        G = Graph(f)
+        for b, i, e in deacts:
+            def _pth(a):
+                while isinstance(a, dict) and a.get('op') == 'un' and a.get('o') in ('*', '&'): a = a.get('e')
+                return a.get('p') if isinstance(a, dict) and a.get('op') == 'path' else None
+            px = _pth(e['args'][0])
+            if not px: continue
+            node = (b['id'], i)
+            n += 1
+            run.inst(site(f, e['line']), 'stack root of %s not read after its deactivation' % px, key=(f['qname'], 'stale-root', e['line']))
+            react = {x for x, ev in G.ev.items() if ev.get('k') == 'call' and ev['callee'].get('name') in ('activateAsyncStackFrame', 'activateFrame') and any(_pth(a) == px for a in ev.get('args', []))}
+            for x in G.reach([m for m, _ in G.succ.get(node, [])], blocked=react):
+                ev = G.ev[x]
+                if ev.get('k') == 'call' and ev['callee'].get('name') == 'getStackRoot' and (ev['callee'].get('base') or '') == px:
+                    run.violation(f['qname'], 'root-read-after-deactivate', '%s:%s' % (f['file'], G.line(x)),
+                                  '%s.getStackRoot() is read after deactivateAsyncStackFrame(%s) (line %s) cleared it: the re-activation dereferences a null root (only the debug/async-stack build executes this code)' % (px, px, e['line']))
+                    break
     # ScopedAsyncStackRoot ctor/dtor pairing
     cs = [g for g in F.funcs if g.get('record') == 'unifex::detail::ScopedAsyncStackRoot' and g.get('ctor') and g.get('blocks')]
     ds = [g for g in F.funcs if g.get('record') == 'unifex::detail::ScopedAsyncStackRoot' and g.get('dtor') and g.get('blocks')]
